@@ -69,6 +69,7 @@ class State:
         self.env: dict = {}
         self.heap: dict[int, HeapObj] = {}
         self.pc: list = []
+        self.guards: list = []        # temporary short-circuit guards while evaluating `a and b` / `a or b`
         self.ghost: dict = {}
         self.effects: list = []
         self.handlers: list = []       # stack of tuples of python exception classes handled by enclosing try blocks
@@ -81,6 +82,7 @@ class State:
         s.env = dict(self.env)
         s.heap = {k: v.clone() for k, v in self.heap.items()}
         s.pc = list(self.pc)
+        s.guards = list(self.guards)
         s.ghost = dict(self.ghost)
         s.effects = list(self.effects)
         s.handlers = list(self.handlers)
@@ -107,4 +109,6 @@ class State:
                 continue
             if z3.is_expr(c) and z3.is_true(c):
                 continue
+            if self.guards:
+                c = z3.Implies(z3.And(*self.guards), c)
             self.pc.append(c)
